@@ -1,3 +1,4 @@
+import Mathlib.Tactic.Positivity
 import KoalaVerif.Model.Voro
 import Mathlib.Data.List.Basic
 import Mathlib.Tactic.Ring
@@ -180,5 +181,112 @@ theorem trivalent_torus_counts (V E N : Nat) (h3 : 3 * V = 2 * E) (he : V + N = 
 example : key { a := 2, b := 5, c := (1, 0) } = key { a := 5, b := 2, c := (-1, 0) } := by decide
 example : (dedup [⟨2, 5, (1, 0)⟩, ⟨5, 2, (-1, 0)⟩, ⟨2, 5, (0, 1)⟩, ⟨1, 1, (0, 0)⟩]).length = 3 := by decide
 example : nearest [(0, 0), (4, 4), (9, 1)] (5, 3) = 1 := by decide
+
+/-! ### the nearest-vertex lookup (`KDTree.query`, modelled by an exact argmin) -/
+
+/-- the fold step of `nearest` -/
+def nstep (p : Pt) (best : Option (Int × Nat)) (vi : Pt × Nat) : Option (Int × Nat) :=
+  let d := dist2 vi.1 p
+  match best with
+  | none => some (d, vi.2)
+  | some (bd, bi) => if d < bd then some (d, vi.2) else some (bd, bi)
+
+/-- what the running minimum knows about the entries seen so far -/
+def NInv (p : Pt) (seen : List (Pt × Nat)) (b : Option (Int × Nat)) : Prop :=
+  match b with
+  | none => seen = []
+  | some (d, i) => (∃ v, (v, i) ∈ seen ∧ d = dist2 v p) ∧ ∀ w ∈ seen, d ≤ dist2 w.1 p
+
+theorem nstep_inv (p : Pt) (seen : List (Pt × Nat)) (b : Option (Int × Nat)) (x : Pt × Nat) (h : NInv p seen b) :
+    NInv p (seen ++ [x]) (nstep p b x) := by
+  unfold nstep
+  cases b with
+  | none =>
+    simp only [NInv] at h ⊢
+    subst h
+    exact ⟨⟨x.1, by simp, rfl⟩, by intro w hw; simp at hw; subst hw; exact le_refl _⟩
+  | some bi =>
+    obtain ⟨bd, i⟩ := bi
+    simp only [NInv] at h
+    obtain ⟨⟨v, hv, hd⟩, hmin⟩ := h
+    simp only
+    split
+    · rename_i hlt
+      refine ⟨⟨x.1, by simp, rfl⟩, ?_⟩
+      intro w hw
+      rcases List.mem_append.mp hw with hw | hw
+      · exact le_trans (le_of_lt hlt) (hmin w hw)
+      · simp at hw; subst hw; exact le_refl _
+    · rename_i hnlt
+      refine ⟨⟨v, by simp [hv], hd⟩, ?_⟩
+      intro w hw
+      rcases List.mem_append.mp hw with hw | hw
+      · exact hmin w hw
+      · simp at hw; subst hw; exact not_lt.mp hnlt
+
+theorem nfold_inv (p : Pt) : ∀ (xs seen : List (Pt × Nat)) (b : Option (Int × Nat)), NInv p seen b →
+    NInv p (seen ++ xs) (xs.foldl (nstep p) b) := by
+  intro xs
+  induction xs with
+  | nil => intro seen b h; simpa using h
+  | cons x xs ih =>
+    intro seen b h
+    simp only [List.foldl_cons]
+    have := ih (seen ++ [x]) (nstep p b x) (nstep_inv p seen b x h)
+    simpa using this
+
+theorem nearest_eq (verts : List Pt) (p : Pt) :
+    nearest verts p = ((verts.zipIdx.foldl (nstep p) none).elim 0 (·.2)) := rfl
+
+/-- **C03 (the in-cell representative)**: for a non-empty vertex list `nearest` returns a valid index of a vertex at
+    minimal distance from the query point -/
+theorem nearest_spec (verts : List Pt) (p : Pt) (hne : verts ≠ []) :
+    ∃ h : nearest verts p < verts.length, ∀ j (hj : j < verts.length), dist2 verts[nearest verts p] p ≤ dist2 verts[j] p := by
+  have hinv := nfold_inv p verts.zipIdx [] none (by simp [NInv])
+  rw [nearest_eq]
+  simp only [List.nil_append] at hinv
+  cases hb : verts.zipIdx.foldl (nstep p) none with
+  | none =>
+    rw [hb] at hinv
+    simp only [NInv] at hinv
+    have : verts = [] := by
+      have := congrArg List.length hinv
+      simpa using this
+    exact absurd this hne
+  | some di =>
+    obtain ⟨d, i⟩ := di
+    rw [hb] at hinv
+    simp only [NInv] at hinv
+    obtain ⟨⟨v, hv, hd⟩, hmin⟩ := hinv
+    rw [List.mem_zipIdx_iff_getElem?] at hv
+    obtain ⟨hi, hvi⟩ := List.getElem?_eq_some_iff.mp hv
+    simp only at hi hvi
+    refine ⟨hi, ?_⟩
+    intro j hj
+    simp only [Option.elim]
+    rw [hvi, ← hd]
+    have := hmin (verts[j], j) (by rw [List.mem_zipIdx_iff_getElem?]; simp [hj])
+    exact this
+
+theorem dist2_eq_zero {a b : Pt} (h : dist2 a b = 0) : a = b := by
+  unfold dist2 at h
+  have h1 : a.1 - b.1 = 0 := by nlinarith [sq_nonneg (a.1 - b.1), sq_nonneg (a.2 - b.2)]
+  have h2 : a.2 - b.2 = 0 := by nlinarith [sq_nonneg (a.1 - b.1), sq_nonneg (a.2 - b.2)]
+  exact Prod.ext (by omega) (by omega)
+
+/-- … so when the point looked up *is* one of the vertices (the image of a window vertex inside the unit cell, which the
+    replication guarantees to be present), `nearest` returns an index of exactly that vertex -/
+theorem nearest_of_mem (verts : List Pt) (p : Pt) (hp : p ∈ verts) :
+    ∃ h : nearest verts p < verts.length, verts[nearest verts p] = p := by
+  have hne : verts ≠ [] := List.ne_nil_of_mem hp
+  obtain ⟨h, hmin⟩ := nearest_spec verts p hne
+  refine ⟨h, ?_⟩
+  obtain ⟨j, hj, hjp⟩ := List.getElem_of_mem hp
+  have := hmin j hj
+  rw [hjp] at this
+  have h0 : dist2 p p = 0 := by unfold dist2; ring
+  rw [h0] at this
+  have hnn : 0 ≤ dist2 verts[nearest verts p] p := by unfold dist2; positivity
+  exact dist2_eq_zero (le_antisymm this hnn)
 
 end C03
